@@ -146,6 +146,14 @@ def body(case, stats):
         tot_loss += l
         rise = rise or r
     stats.cls("solved")
+    for n in spec["nodes"]:
+        ig = n["params"].get("ig")
+        if n["kind"] == "PMux" and isinstance(ig, dict) and len(ig["vi"]) > 1:
+            for ph in phases:
+                r, r0 = tab.by[(ph, n["name"])], tab.by[(ph, n["parents"][0])]
+                if r["Iout (A)"] > 0 and r["Vin (V)"] != r0["Vout (V)"]:
+                    stats.cls("mux_2d_ig_runs_from_later_input")
+                    break
     if spec["phases"]:
         stats.cls("with_phases")
     kinds = {n["kind"] for n in spec["nodes"]}
@@ -179,10 +187,15 @@ def streams(tier, avoid):
     mn = 14 if big else 9
     o1 = G.Opts(max_nodes=mn, thermal=True, zero_source=True, avoid=avoid)
     o2 = G.Opts(max_nodes=mn, thermal=True, phases=True, zero_source=True, avoid=avoid)
+    # a PMux with a 2-D ig table running from a later input because its first one is dead
+    o3 = G.Opts(max_nodes=mn, thermal=True, phases=True, zero_source=True, mux_focus=True,
+                similar_sources=True, avoid=avoid)
     return [
         Stream("static", body, strategy=_case(o1), n={"quick": 800, "thorough": 6000},
                reduce=_reduce),
         Stream("phases", body, strategy=_case(o2), n={"quick": 500, "thorough": 4000},
+               reduce=_reduce),
+        Stream("mux2d", body, strategy=_case(o3), n={"quick": 300, "thorough": 2500},
                reduce=_reduce),
     ]
 
